@@ -117,3 +117,82 @@ Example C02_nonvacuous :
   /\ Forall (fun e => int_key (fst e) = true) [(k2, rx); (k1, ry); (k2, ry); (k1, ry); (k2, rx)].
 Proof. split; [vm_compute; reflexivity|]. split; [repeat split|]. repeat constructor. Qed.
 Print Assumptions C02_nonvacuous.
+
+(* ---- rbql-js: SortedWriter sorts with Array.prototype.sort(stable_compare) over entries  key components ++ [arrival index, record].
+   ECMA-262 says nothing about the algorithm; it promises, for a consistent comparator, a permutation of the entries in which no
+   later entry compares less than an earlier one.  That is enough (JsSort.v, JsSort_Proofs.v): *)
+From RBQL Require Import Utf16 JsSort JsSort_Proofs.
+
+(* a sorted arrangement of given elements under a strict total order is unique - no algorithm is mentioned ... *)
+Theorem C02_js_sort_unique : forall (A : Type) (ltb : A -> A -> bool) (l l1 l2 : list A),
+  (forall a, In a l -> ltb a a = false) ->
+  (forall a b c, In a l -> In b l -> In c l -> ltb a b = true -> ltb b c = true -> ltb a c = true) ->
+  (forall a b, In a l -> In b l -> a = b \/ ltb a b = true \/ ltb b a = true) ->
+  Permutation l l1 -> Permutation l l2 ->
+  Sorted (fun a b => ltb a b = true) l1 -> Sorted (fun a b => ltb a b = true) l2 ->
+  l1 = l2.
+Proof. exact sorted_perm_unique. Qed.
+Print Assumptions C02_js_sort_unique.
+
+(* ... also when sorted is read the way ECMA-262 puts it (no inversion), where totality alone decides *)
+Theorem C02_js_sort_unique_ecma : forall (A : Type) (ltb : A -> A -> bool) (l l1 l2 : list A),
+  (forall a b, In a l -> In b l -> a = b \/ ltb a b = true \/ ltb b a = true) ->
+  Permutation l l1 -> Permutation l l2 ->
+  StronglySorted (fun a b => ltb b a = false) l1 -> StronglySorted (fun a b => ltb b a = false) l2 ->
+  l1 = l2.
+Proof. exact ecma_sorted_perm_unique. Qed.
+Print Assumptions C02_js_sort_unique_ecma.
+
+(* on entries whose keys are position-wise homogeneous (same length, a number or a string at each position in all of them) and
+   whose arrival indices are pairwise distinct, stable_compare is the lexicographic order on (key, arrival index) - numbers as
+   integers, strings by UTF-16 code units -, a consistent comparator and a strict total order *)
+Theorem C02_js_compare_total : forall (R : Type) (l : list (entry R)),
+  (forall a b, In a l -> In b l -> shape_eqb (e_key a) (e_key b) = true) -> NoDup (map e_idx l) ->
+  (forall a b, In a l -> In b l -> (stable_compare a b = Some (-1)%Z <-> entry_ltb a b = true)) /\
+  (forall a b, In a l -> In b l -> (stable_compare a b = Some 1%Z <-> stable_compare b a = Some (-1)%Z)) /\
+  (forall a b, In a l -> In b l -> (stable_compare a b = None <-> a = b)) /\
+  (forall a, In a l -> stable_compare a a <> Some (-1)%Z) /\
+  (forall a b c, In a l -> In b l -> In c l ->
+     stable_compare a b = Some (-1)%Z -> stable_compare b c = Some (-1)%Z -> stable_compare a c = Some (-1)%Z) /\
+  (forall a b, In a l -> In b l -> a = b \/ stable_compare a b = Some (-1)%Z \/ stable_compare b a = Some (-1)%Z).
+Proof. exact stable_compare_total_order. Qed.
+Print Assumptions C02_js_compare_total.
+
+(* hence: number the offers (sort key, row) of the reference engine in arrival order as SortedWriter.write does, the keys seen as
+   JavaScript sees them (an integer is a number, a string is its UTF-16 encoding); ANY arrangement of these entries that
+   Array.prototype.sort may return yields the rows of the reference stable sort, and reverse() yields the DESC output, the
+   reverse of the ascending one.  Strings: no code point in U+E000..U+FFFF (C19_utf16_order_agree) ... *)
+Theorem C02_js_sort_is_stable_sort : forall (es : list (key * row)) (out : list (entry row)),
+  (forall e, In e es -> key_ok (forallb low_or_astral) (fst e) = true) ->
+  (forall a b, In a es -> In b es -> shape_eqb (enc_key (fst a)) (enc_key (fst b)) = true) ->
+  Permutation (js_entries es) out ->
+  StronglySorted (fun a b => stable_compare b a <> Some (-1)%Z) out ->
+  js_output false out = map snd (stable_sort es)
+  /\ js_output false out = ordered false es
+  /\ js_output true out = ordered true es
+  /\ js_output true out = rev (ordered false es).
+Proof. exact js_sort_is_stable_sort. Qed.
+Print Assumptions C02_js_sort_is_stable_sort.
+
+(* ... or no code point above U+FFFF *)
+Theorem C02_js_sort_is_stable_sort_bmp : forall (es : list (key * row)) (out : list (entry row)),
+  (forall e, In e es -> key_ok (forallb bmp) (fst e) = true) ->
+  (forall a b, In a es -> In b es -> shape_eqb (enc_key (fst a)) (enc_key (fst b)) = true) ->
+  Permutation (js_entries es) out ->
+  StronglySorted (fun a b => stable_compare b a <> Some (-1)%Z) out ->
+  js_output false out = map snd (stable_sort es)
+  /\ js_output false out = ordered false es
+  /\ js_output true out = ordered true es
+  /\ js_output true out = rev (ordered false es).
+Proof. exact js_sort_is_stable_sort_bmp. Qed.
+Print Assumptions C02_js_sort_is_stable_sort_bmp.
+
+(* with a number and strings in one key position stable_compare is not transitive ("10" < "9" < 10 but not "10" < 10) and not a
+   consistent comparator: the language-neutral fragment keeps every sort key position of one kind *)
+Theorem C02_js_sort_mixed_refuted :
+  exists a b c : entry unit,
+    NoDup (map e_idx [a; b; c])
+    /\ stable_compare a b = Some (-1)%Z /\ stable_compare b c = Some (-1)%Z
+    /\ stable_compare a c = Some 1%Z /\ stable_compare c a = Some 1%Z.
+Proof. exact stable_compare_mixed_refuted. Qed.
+Print Assumptions C02_js_sort_mixed_refuted.
